@@ -4049,6 +4049,7 @@ func genC08(c *Ctx) {
 	genC08BocHelpers(c)
 	genC08Client(c)
 	genC08Limits(c)
+	genC08R8(c) // round 8: announced lengths at every magnitude, constant census (c08_r8.go)
 	genC08Readers(c)
 	genC08Resolver(c)
 	genC08TL(c)
